@@ -13,6 +13,7 @@ RCT(n, rec) == [name |-> n, trace |-> TRUE, lock |-> FALSE, icpt |-> StdI, domai
 Hosts(ds)  == [t |-> "hosts", domains |-> ds]
 PV(vs)     == [t |-> "pathver", param |-> "ver", versions |-> vs]
 HV(vs)     == [t |-> "headerver", param |-> "hv", key |-> "version", versions |-> vs]
+HVn(vs)    == [t |-> "headerver", param |-> "ver", key |-> "version", versions |-> vs]     \* records under the SAME name as PV
 And(ms)    == [t |-> "and", ms |-> ms]
 Or(ms)     == [t |-> "or", ms |-> ms]
 Nil        == [t |-> "nil"]
@@ -21,7 +22,9 @@ MatchersG == {Hosts(<<"a.com">>), Hosts(<<"{sub}.b.com">>), PV(<<"v1">>), PV(<<"
               Or(<<And(<<PV(<<"v1">>), Hosts(<<"a.com">>)>>), PV(<<"v1">>)>>), Or(<<Hosts(<<"a.com">>), Hosts(<<"{sub}.b.com">>)>>),
               And(<<PV(<<"v1">>), HV(<<"v2">>)>>),
               Or(<<And(<<HV(<<"v2">>), Hosts(<<"a.com">>)>>), Hosts(<<"{sub}.b.com">>)>>),
-              Or(<<And(<<Hosts(<<"{sub}.b.com">>), PV(<<"v9">>)>>), Nil>>)}
+              Or(<<And(<<Hosts(<<"{sub}.b.com">>), PV(<<"v9">>)>>), Nil>>),
+              \* an inner And overwrites a parameter an outer member had set, then rejects: the outer value must be back
+              And(<<HVn(<<"v2">>), Or(<<And(<<PV(<<"v1">>), Hosts(<<"a.com">>)>>), Hosts(<<"{sub}.b.com">>)>>)>>)}
 Names == {"r1", "r2", "r3"}
 Hd(n, p, ms, mw) == [op |-> "handle", inst |-> n, pat |-> p, methods |-> ms, mws |-> mw, chain |-> <<>>, res |-> FALSE]
 Table(n) == <<Hd(n, "/x", <<"GET">>, <<"m">>), Hd(n, "/{rest}", <<"GET">>, <<>>)>>
@@ -79,8 +82,8 @@ ReqsC16 == {Rq(k, n, m, p, "a.com", "", (s :> v)) : k \in {"gserve", "rserve"}, 
            \cup {Rq("gserve", "", m, p, "c.com", "", (s :> "error")) : m \in {"GET", "POST"}, p \in {"/x", "/nope/y/z"}, s \in {"h:route", "h:404", "h:405", "mw:m"}}
            \cup {Rq(k, n, "GET", p, "a.com", "", <<>>) : k \in {"gserve", "rserve"}, n \in {"r1", "r2"}, p \in {"/x", "/v1/x"}}
 RecHelpers == {[op |-> "rechelper", key |-> k, n |-> c, method |-> me, path |-> p, faults |-> (s :> v)] :
-                 k \in {"status", "write", "log", "slog"}, c \in {503}, me \in {"GET", "POST", "OPTIONS"}, p \in {"/x", "/zz"},
-                 s \in {"h:route", "h:404", "h:405", "h:opt", "mw:m"}, v \in {"error", "runtime"}}
+                 k \in {"status", "write", "log", "slog"}, c \in {503}, me \in {"GET", "POST", "OPTIONS", "HEAD"}, p \in {"/x", "/zz"},
+                 s \in {"h:route", "h:404", "h:405", "h:opt", "mw:m", "late:route"}, v \in {"error", "runtime"}}
 Reqs == IF ReqSel = "C16" THEN ReqsC16 \cup RecHelpers ELSE ReqsC13
 
 CaseOf == [fam |-> "group", cfg |-> [recovery |-> G.rec, name |-> "g"], ops |-> hist, reqs |-> Reqs]
